@@ -325,8 +325,18 @@ TRACK_TEMPLATE = """{% import "rally.helpers" as rally with context %}
   "schedule": [ {"operation": "bulk", "clients": {{ clients | default(2) }} }, {"operation": "force-merge", "clients": MINCLIENTS } ]
 }
 """
-OPS_PART = """{"name": "bulk", "operation-type": "bulk", "bulk-size": {{ bulk_size | default(500) }} },
-{"name": "force-merge", "operation-type": "force-merge"}"""
+OPS_BULK = """{"name": "bulk", "operation-type": "bulk", "bulk-size": {{ bulk_size | default(500) }} }"""
+OPS_FM = """{"name": "force-merge", "operation-type": "force-merge"}"""
+# how the two operations are spread over collected parts: file -> content, relative to the track directory
+PART_LAYOUTS = {
+    "one part": {"operations/default.json": OPS_BULK + ",\n" + OPS_FM},
+    "two parts matched by one glob": {"operations/a.json": OPS_BULK, "operations/b.json": OPS_FM},
+    "a part that collects further parts relative to its own directory": {
+        "operations/default.json": OPS_BULK + ',\n{{ rally.collect(parts="inner/*.json") }}', "operations/inner/fm.json": OPS_FM},
+    "two levels of nesting": {
+        "operations/default.json": '{{ rally.collect(parts="l1/*.json") }}', "operations/l1/x.json": OPS_BULK + ',\n{{ rally.collect(parts="l2/*.json") }}',
+        "operations/l1/l2/fm.json": OPS_FM},
+}
 
 
 def file_reader_pipeline(sl):
@@ -355,11 +365,12 @@ def file_reader_pipeline(sl):
     schema_bad = bool(fresh_bool("schema_violation"))
     d = tempfile.mkdtemp(prefix="verif-c10-")
     try:
-        os.makedirs(os.path.join(d, "operations"))
         with open(os.path.join(d, "track.json"), "w") as f:
             f.write(TRACK_TEMPLATE.replace("VERSION", str(version)).replace("MINCLIENTS", "0" if schema_bad else "1"))
-        with open(os.path.join(d, "operations", "default.json"), "w") as f:
-            f.write(OPS_PART)
+        for rel, content in PART_LAYOUTS[sl["layout"]].items():
+            os.makedirs(os.path.dirname(os.path.join(d, rel)), exist_ok=True)
+            with open(os.path.join(d, rel), "w") as f:
+                f.write(content)
         cfg = StubCfg({("node", "rally.root"): os.path.dirname(loader.__file__).rsplit(os.sep, 1)[0], ("track", "params"): user})
 
         class Tmp:
@@ -436,10 +447,10 @@ HARNESSES = [
             lambda tier: [{"kind": k} for k in ("operations", "corpora", "tasks-sequential", "tasks-across-parallel", "tasks-within-parallel", "tasks-default-names")],
             reads=READS, assumptions=OUT, doc="duplicate operation, corpus and task names"),
     Harness("operation_types", operation_types, "bounded-exhaustive", lambda tier: [{}], reads=READS, doc="operation type registry round trip (finite, complete)"),
-    Harness("file_reader_pipeline", file_reader_pipeline, "bounded-exhaustive", lambda tier: [{}], reads=READS + [loader.TrackFileReader.read, loader.render_template_from_file,
+    Harness("file_reader_pipeline", file_reader_pipeline, "bounded-exhaustive", lambda tier: [{"layout": k} for k in PART_LAYOUTS], reads=READS + [loader.TrackFileReader.read, loader.render_template_from_file,
                                                                                                           loader.CompleteTrackParams, loader.register_all_params_in_track],
             assumptions=["runs on a real temporary directory (created and removed per path) with the real Jinja2, json and jsonschema: a finite family, no symbolic strings"],
-            bounds={"track parameters": "bulk_size / clients given or not, an unused (misspelt) and a reserved parameter given or not", "track file": "version 1/2/3, one schema violation or none"},
+            bounds={"track parameters": "bulk_size / clients given or not, an unused (misspelt) and a reserved parameter given or not", "track file": "version 1/2/3, one schema violation or none", "parts": sorted(PART_LAYOUTS)},
             doc="end-to-end TrackFileReader.read: substitution, rally.collect, version, schema, reserved and unused parameters"),
     Harness("template_params", template_params, "bounded-exhaustive", lambda tier: [{"construct": c} for c in CONSTRUCTS], reads=READS + [loader.render_template, loader.default_internal_template_vars],
             assumptions=["Jinja2 and json run concretely on a finite family of templates (no symbolic strings): this harness only ties the rendering stage to the reader for the listed constructs"],
